@@ -3,7 +3,7 @@
    Requests:
      ("table")                         -> ((opc "name" ("KIND" ...)) ...)       the spec table
      ("case" (le addr fmt) (op ...))   -> (wf canon #bytes expected model #reenc)
-         op  = ("op" opc (val ...)) | ("nest" opc #lenc (op ...))
+         op  = ("op" opc (val ...)) | ("nest" opc pad (op ...))
          val = ("i" v) | ("leb" #enc v) | ("blk" #lenc #bytes) | ("typed" #tenc ty #bytes)
              | ("wleb" tag #enc v) | ("w32" v)
      ("raw" (le addr fmt) #bytes)      -> model result on arbitrary bytes *)
@@ -23,10 +23,14 @@ Definition sval_of_sx (s : sx) : sval :=
   | _ => VInt 0
   end.
 
-Fixpoint sop_of_sx (s : sx) : sop :=
+(* a nested operation comes with the number of padding bytes of its length field;
+   the length itself is the size of the encoded body (computed here, certified by wf_ops) *)
+Fixpoint sop_of_sx (c : cfg) (s : sx) : sop :=
   match s with
   | SL [SS _; SI opc; SL vals] => SOp opc (map sval_of_sx vals)
-  | SL [SS _; SI opc; SB lenc; SL body] => SNest opc lenc (map sop_of_sx body)
+  | SL [SS _; SI opc; SI pad; SL body] =>
+      let b := map (sop_of_sx c) body in
+      SNest opc (uleb_pad (uleb_encode (zlen (encode_ops c b))) (Z.to_nat pad)) b
   | _ => SOp (-1) []
   end.
 
@@ -49,7 +53,7 @@ Definition dispatch (req : sx) : sx :=
   if op =? "table" then sx_table
   else if op =? "case" then
     let c := cfg_of_sx (nthx 1 l) in
-    let ops := map sop_of_sx (gL (nthx 2 l)) in
+    let ops := map (sop_of_sx c) (gL (nthx 2 l)) in
     let bytes := encode_ops c ops in
     let expected := annotate c ops in
     SL [ sx_bool (cfg_ok c && wf_ops c ops);
